@@ -555,22 +555,27 @@ def _edge_check(r, mod, fn, node, seq):
     return ok
 
 
-def _reset_check(r, mod, fn_name):
+def _reset_check(r, mod, fn_name, derived=(), comb=()):
+    """derived: names of lists that are (filtered copies / concatenations of) the per-edge list holding the tracing hooks"""
     f = mod.get_func(fn_name)
     closures = {}
     for s in f.body:
         if isinstance(s, ast.Assign) and len(s.targets) == 1 and isinstance(s.targets[0], ast.Name) and isinstance(s.value, ast.Call) \
                 and isinstance(s.value.func, ast.Attribute) and s.value.func.attr == 'gen_tick_function' and len(s.value.args) == 1:
             a = s.value.args[0]
-            if _is_call(a, attr='collect_ff_funcs') and norm(a.func.value) in ('self', 's'):
+            if (_is_call(a, attr='collect_ff_funcs') and norm(a.func.value) in ('self', 's')) or \
+                    (isinstance(a, ast.Name) and a.id in derived):
                 closures[s.targets[0].id] = 'edge'
             else:
                 k = {_classify(norm(x)) for x in ast.walk(a) if isinstance(x, ast.Attribute)}
+                if isinstance(a, ast.Name) and a.id in comb:
+                    k.add('comb')
                 if k & {'ff', 'flip'}:
                     closures[s.targets[0].id] = 'rawedge'
                 elif 'comb' in k:
                     closures[s.targets[0].id] = 'comb'
-    inner = [n for n in f.body if isinstance(n, ast.FunctionDef)]
+    inner = [n for n in f.body if isinstance(n, ast.FunctionDef) and
+             any(isinstance(x, ast.Call) and isinstance(x.func, ast.Name) and x.func.id in closures for x in ast.walk(n))]
     if len(inner) != 1 or 'comb' not in closures.values():
         raise AnalysisError(f"{fn_name}: expected the comb/edge closures and one inner reset function")
     g = inner[0]
@@ -675,7 +680,48 @@ def rule_tick_order(repo):
     else:
         r.bad(om, 'OpenLoopCLPass.schedule_with_top_level_callee', f"schedule built from {lst}",
               "the update schedule does not precede the clock-edge list in the open-loop schedule: dumps sample unsettled values", of.lineno)
-    r.require_floor(6 if not r.findings else 0)
+    # every function of the open-loop flow that simulates a clock edge runs (a copy of) that per-edge list
+    def closure_of(seed):
+        out = set(seed)
+        for _ in range(4):
+            for n in _own_nodes(of):
+                if isinstance(n, ast.Assign) and len(n.targets) == 1 and isinstance(n.targets[0], ast.Name):
+                    val = n.value
+                    src_names = set()
+                    if isinstance(val, ast.ListComp) and len(val.generators) == 1 and isinstance(val.generators[0].iter, ast.Name) \
+                            and norm(val.elt) == norm(val.generators[0].target):
+                        src_names = {val.generators[0].iter.id}
+                    elif isinstance(val, ast.BinOp) and isinstance(val.op, ast.Add):
+                        src_names = {x.id for x in _addends(val) if isinstance(x, ast.Name)}
+                    elif isinstance(val, ast.Name):
+                        src_names = {val.id}
+                    elif isinstance(val, ast.Subscript) and isinstance(val.slice, ast.Slice) and val.slice.lower is None \
+                            and val.slice.upper is None and isinstance(val.value, ast.Name):
+                        src_names = {val.value.id}
+                    if src_names & out:
+                        out.add(n.targets[0].id)
+        return out
+    derived = closure_of({lst})
+    comb_names = closure_of({n.id for n in ast.walk(of) if isinstance(n, ast.Name) and _classify(n.id) == 'comb'}) - derived
+    _reset_check(r, om, 'OpenLoopCLPass.schedule_with_top_level_callee', derived, comb_names)
+    # the method wrapper advances a cycle by calling the elements of a list: that list must contain the per-edge list
+    for g_ in _nested_defs(of):
+        for c_ in ast.walk(g_):
+            if isinstance(c_, ast.Call) and isinstance(c_.func, ast.Subscript) and isinstance(c_.func.value, ast.Name):
+                nm_ = c_.func.value.id
+                owner, bs = _lookup(nm_, c_)
+                actual = nm_
+                if bs and bs[0][0] == 'param' and isinstance(owner, ast.FunctionDef):
+                    pos = _params(owner).index(nm_)
+                    calls = [x for x in ast.walk(of) if _is_call(x, name=owner.name) and len(x.args) > pos]
+                    if len(calls) != 1 or not isinstance(calls[0].args[pos], ast.Name):
+                        raise AnalysisError(f"OpenLoopCLPass: cannot see which list {owner.name} advances the cycle with")
+                    actual = calls[0].args[pos].id
+                _chk(r, actual in derived, om, 'OpenLoopCLPass.schedule_with_top_level_callee.' + g_.name, f"cycle advance runs {actual}[i]()",
+                     f"the method wrapper advances the cycle by running `{actual}`, which is not built from the per-edge list `{lst}` that "
+                     f"holds the dump functions: cycles advanced by method calls are missing from the waveform", c_)
+                break
+    r.require_floor(8 if not r.findings else 0)
     return r
 
 
@@ -815,12 +861,29 @@ def _net_loop(v):
             raise AnalysisError(f"{v.dump.name}: index loop without `signal, symbol = table[i]`")
         idx, row, table = ii[1], un[0].targets[0], ii[0]
     elif _is_call(it, name='enumerate', nargs=1):
-        if not (isinstance(tgt, ast.Tuple) and len(tgt.elts) == 2 and isinstance(tgt.elts[0], ast.Name) and isinstance(it.args[0], ast.Name)):
+        if not (isinstance(tgt, ast.Tuple) and len(tgt.elts) == 2 and isinstance(tgt.elts[0], ast.Name)
+                and (isinstance(it.args[0], ast.Name) or _is_call(it.args[0], name='zip', nargs=2))):
             raise AnalysisError(f"{v.dump.name}: enumerate target outside the understood shapes")
-        idx, row, table = tgt.elts[0].id, tgt.elts[1], it.args[0].id
+        idx, row, table = tgt.elts[0].id, tgt.elts[1], (it.args[0].id if isinstance(it.args[0], ast.Name) else None)
     elif isinstance(it, ast.Name):
         row, table = tgt, it.id
     else:
+        row, table = tgt, None
+    v.inline = None
+    src = it.args[0] if _is_call(it, name='enumerate', nargs=1) else it
+    if _is_call(src, name='zip', nargs=2) and all(isinstance(a, ast.Name) for a in src.args):
+        # the loop walks the net table and the symbol table side by side: row = (net, symbol), signal = net[0]
+        if not (isinstance(row, ast.Tuple) and len(row.elts) == 2 and all(isinstance(x, ast.Name) for x in row.elts)):
+            raise AnalysisError(f"{v.dump.name}: zip rows are not unpacked as (net, symbol)")
+        netv, symv = row.elts[0].id, row.elts[1].id
+        sg = [s_.targets[0].id for s_ in lp.body if isinstance(s_, ast.Assign) and len(s_.targets) == 1 and isinstance(s_.targets[0], ast.Name)
+              and isinstance(s_.value, ast.Subscript) and norm(s_.value.value) == netv and norm(s_.value.slice) in ('0', '-1')]
+        if len(sg) != 1:
+            raise AnalysisError(f"{v.dump.name}: no `signal = {netv}[0]` in a loop over zip(nets, symbols)")
+        v.netidx = None
+        v.inline = (src.args[0].id, src.args[1].id, idx, lp)
+        return lp, idx, sg[0], symv, norm(src)
+    if table is None:
         raise AnalysisError(f"{v.dump.name}: the value loop does not iterate over the per-cycle table")
     roles = _table_roles(v, table)
     if not (isinstance(row, ast.Tuple) and len(row.elts) == len(roles) and all(isinstance(x, ast.Name) for x in row.elts)):
@@ -961,6 +1024,12 @@ def _attr_writers(repo, attr):
 def _pairs_table(v, name, at):
     """the (signal, symbol) table, built by a comprehension or an append loop:
     returns (defining node, net table, symbol table, index var, filter conjuncts, pairing ok)"""
+    if getattr(v, 'inline', None):
+        nets_, syms_, idx_, lp_ = v.inline
+        v.table_gap = None
+        return lp_, nets_, syms_, idx_, _conjuncts([g for p_ in ast.walk(lp_) if _is_call(p_, name='print') for g in _cond_guards(stmt_of(p_))
+                                                   if any(isinstance(n, ast.Name) and n.id == idx_ for n in ast.walk(g.test))
+                                                   and not any(isinstance(n, ast.Subscript) for n in ast.walk(g.test))]), True
     colls = _collected(v.mk, name)
     roles = _table_roles(v, name)
     c = colls[0]
@@ -1139,6 +1208,20 @@ def rule_compress(repo):
     _chk(r, not badf, m, v.q, f"{table}: filters [{', '.join(('' if p_ == 'pos' else 'not ') + norm(t) for p_, t in (ifs or []))}]",
          f"nets other than the clock net are left out of the per-cycle table ({badf[0] if badf else ''}): their signals keep "
          f"their initial value in the waveform forever", val)
+    # --- every slot the per-cycle loop compares was given a string by the header (the placeholder the list is created with
+    #     is not a value string: comparing against it prints a line for a net that did not change)
+    if LV is not None:
+        inits = [n for n in _own_nodes(v.mk) if isinstance(n, ast.Assign) and any(isinstance(t, ast.Subscript) and norm(t.value) == LV
+                                                                                     for t in n.targets)]
+        excl = [g for n in inits for g in _cond_guards(n)]
+        compared_all = not (ifs or [])          # no net is excluded from the per-cycle comparison
+        _chk(r, bool(inits) and not (excl and compared_all), m, v.q,
+             f"slots of {LV}: initialised {'under ' + repr(excl[0]) if excl else 'for every net'}, compared "
+             f"{'for every net' if compared_all else 'except ' + ', '.join(norm(t) for _, t in ifs)}",
+             f"the per-cycle loop compares the slot of every net, but the header leaves the slot of the net excluded by `{excl[0]!r}` at the "
+             f"placeholder the list was created with (not a value string): at the first dump that net's unchanged value differs from the "
+             f"placeholder and is printed -- for the clock net `0<clk>` lands in time 0 after the header's `1<clk>`, the first rising edge "
+             f"disappears" if excl else f"the header never stores an initial string into {LV}", inits[0] if inits else v.mk)
     # --- clock lines: abstract run of the straight-line part for cycle numbers 0..4
     v.clk = (syms, clkidx)
     cnts = [x for n in _own_nodes(D) if isinstance(n, ast.Nonlocal) for x in n.names]
@@ -1256,7 +1339,7 @@ def rule_compress(repo):
 
 
 def _fin(r):
-    r.require_floor({'R-C16-compress': 16, 'R-C16-header': 33, 'R-C16-textwave': 13}.get(r.rule, 1) if not r.findings else 0)
+    r.require_floor({'R-C16-compress': 17, 'R-C16-header': 33, 'R-C16-textwave': 13}.get(r.rule, 1) if not r.findings else 0)
     return r
 
 
@@ -2994,6 +3077,13 @@ MUTANTS = [
     _m('symbols-alphabet-with-blank', VCD, "for i in range(33, 127)])", "for i in range(32, 127)])", 'R-C16-symbols'),
     _m('symbols-counter-not-stepped', VCD, "        yield code\n        n += 1\n", "        yield code\n", 'R-C16-symbols'),
     _m('symbols-digits-dropped-not-prepended', VCD, "          code = _codechars[r] + code\n", "          code = _codechars[r]\n", 'R-C16-symbols'),
+    _m('openloop-reset-edges-bypass-dumps', OPENLOOP, "    ff = SimpleTickPass.gen_tick_function( ffs_no_method )",
+       "    ff = SimpleTickPass.gen_tick_function( top._sched.schedule_ff + top._sched.schedule_posedge_flip )", 'R-C16-tick-order'),
+    _m('openloop-method-advance-bypasses-dumps', OPENLOOP, "    schedule_no_method = ups_no_method + ffs_no_method\n",
+       "    schedule_no_method = ups_no_method + top._sched.schedule_ff + top._sched.schedule_posedge_flip\n", 'R-C16-tick-order'),
+    _m2('clock-slot-left-at-placeholder', 'R-C16-compress',
+        (VCD, "      for i, (signal, symbol) in enumerate( net_details ):\n", '      for i, (net, symbol) in enumerate( zip( trimmed_value_nets, net_symbol_mapping ) ):\n        signal = net[0]\n'),
+        (VCD, "    for i, net in enumerate(trimmed_value_nets):\n", "    for i, net in enumerate(trimmed_value_nets):\n      if i == vcd_clock_net_idx: continue\n")),
     _m('var-name-keeps-dot', VCD, "repr(signal)[ len(m_name)+1: ]", "repr(signal)[ len(m_name): ]", 'R-C16-header'),
     _m('no-upscope', VCD, '      print( f"{spaces}$upscope $end", file=vcd_file )\n', "", 'R-C16-header'),
     _m('clock-index-off-by-one', VCD, "vcd_clock_net_idx = len(trimmed_value_nets)\n\n      if new_net:",
@@ -3128,6 +3218,9 @@ EQUIV = [
        "        q, r = divmod(n, _mod)\n        code = _codechars[r]\n        while q > 0:\n          q, r = divmod(q, _mod)\n          code = _codechars[r] + code\n        yield code\n",
        "        def encode( k ):\n          hi, lo = divmod( k, _mod )\n          return ( encode( hi ) if hi > 0 else '' ) + _codechars[ lo ]\n        yield encode( n )\n"),
     _m('symbols-alphabet-one-shorter', VCD, "for i in range(33, 127)])", "for i in range(33, 126)])"),
+    _m('value-loop-over-zip', VCD, "      for i, (signal, symbol) in enumerate( net_details ):\n", '      for i, (net, symbol) in enumerate( zip( trimmed_value_nets, net_symbol_mapping ) ):\n        signal = net[0]\n'),
+    _m('openloop-edge-list-copied', OPENLOOP, "    ff = SimpleTickPass.gen_tick_function( ffs_no_method )",
+       "    edge_funcs = ffs_no_method[::]\n    ff = SimpleTickPass.gen_tick_function( edge_funcs )"),
     _m('dump-guard-flipped', PREP, "    if top.has_metadata( VcdGenerationPass.vcd_func ):\n      ret.append( top.get_metadata( VcdGenerationPass.vcd_func ) )\n",
        "    if not top.has_metadata( VcdGenerationPass.vcd_func ):\n      pass\n    else:\n      ret.append( top.get_metadata( VcdGenerationPass.vcd_func ) )\n"),
     _m('vcd-str-conditional-expression', BITS,
